@@ -399,3 +399,18 @@ for fn in ("intersection", "mergeLabels"):
              loops={"loop#1": {"havoc": {"retEntryList": "tuple3"}}},
              frame=["self", "tier"], may_raise=["TextgridStateError"],
              ensures=[("well-formed", "well_formed(result)")])
+
+
+# ---- eraseRegion with shrinking: a second contract on the same function (variant "shrink").  The refinement against
+# the property's spec was abandoned (see the main contract above); what is proved here is the class-invariant clause:
+# the shifted entries are summarised as an arbitrary list (R-HAVOC), the re-joining loop runs through R-FIND, and the
+# result goes through the validating constructor - a well-formed tier, or TextgridStateError / CollisionError.
+
+contract(IT + ".eraseRegion", variant="shrink", serves=["C05", "C07", "C13"], spec_module="spec.tiers",
+         configs={"collisionMode": ["truncate", "categorical", "error"], "doShrink": [True]},
+         inputs=lambda S, cfg: dict(self=distinct_interval_tier(S, "self"), start=S.real("start"), end=S.real("end"),
+                                    collisionMode=cfg["collisionMode"], doShrink=cfg["doShrink"]),
+         requires=REGION + ["start < end"],
+         loops={"loop#2": {"havoc": {"newEntryList": "Interval"}}},
+         frame=["self"], may_raise=["TextgridStateError", "CollisionError"],
+         ensures=[("well-formed", "well_formed(result)")])
